@@ -11,7 +11,7 @@ def main():
     c = sys.argv[1]
     dry = "--dry" in sys.argv
     only = [a for a in sys.argv[2:] if a.endswith(".diff")]
-    fx = f"/tmp/wt/{c}/_fix"
+    fx = f"{os.environ.get('SERIES_ROOT', '/tmp/wt')}/{c}/_fix"
     ser = json.load(open(f"{fx}/series.json"))
     items = ser if isinstance(ser, list) else ser.get("series") or ser.get("patches") or []
     items = [i for i in items if isinstance(i, dict) and i.get("patch")]
@@ -30,7 +30,7 @@ def main():
         scripts = it.get("finding") or ""
         ok = True
         for sc in [s.strip() for s in str(scripts).replace("+", ",").replace(" and ", ",").split(",") if s.strip().endswith(".py")]:
-            sp = f"/verif/findings/hunt/{c}/{os.path.basename(sc)}"
+            sp = f"/verif/findings/{os.environ.get('HUNT_DIR', 'hunt')}/{c}/{os.path.basename(sc)}"
             if os.path.exists(sp):
                 rc, out = sh(f"timeout 180 /venv/bin/python {sp}", cwd="/repo", env=dict(os.environ, PYTHONPATH="/repo"), timeout=240)
                 print(f"[{c}] {it['patch']}: {os.path.basename(sc)} exit {rc}")
